@@ -325,6 +325,7 @@ func checkSigGates(c *core.Ctx) {
 		ok   bool
 		pos  token.Pos
 	}
+	var thresholdBlock *ssa.BasicBlock
 	gates := map[string]*g{
 		"is-multisig": {}, "count": {}, "recover-error": {}, "duplicate": {}, "threshold": {},
 	}
@@ -377,6 +378,7 @@ func checkSigGates(c *core.Ctx) {
 				gates["recover-error"].ok, gates["recover-error"].pos = true, iff.Pos()
 			case x.Op == token.LSS && rejectWhen && strings.HasSuffix(py, ".Threshold") && strings.HasPrefix(px, "φtotalWeight"):
 				gates["threshold"].ok, gates["threshold"].pos = true, iff.Pos()
+				thresholdBlock = b
 			case (x.Op == token.GTR || x.Op == token.LSS) && rejectWhen && (strings.Contains(px, "len(") || strings.Contains(py, "len(") || strings.Contains(px, "Signatures") || strings.Contains(py, "Signatures")):
 				gates["count"].ok, gates["count"].pos = true, iff.Pos()
 			}
@@ -407,12 +409,7 @@ func checkSigGates(c *core.Ctx) {
 			_ = gt
 		}
 		// every path from the arm entry to the dispatch passes the threshold If
-		var thrBlock *ssa.BasicBlock
-		for b := range inArm {
-			if iff := core.IfOf(b); iff != nil && iff.Pos() == gates["threshold"].pos && gates["threshold"].ok {
-				thrBlock = b
-			}
-		}
+		thrBlock := thresholdBlock
 		if thrBlock != nil {
 			reach := core.ReachFrom(arm, map[*ssa.BasicBlock]bool{thrBlock: true})
 			okDom = !reach[disp.Block()]
@@ -428,6 +425,67 @@ func checkSigGates(c *core.Ctx) {
 			}
 		}
 		c.Check(ok, rule, "Transaction.Sender/single", sfn.Pos(), "single-signature sender = RecoverPlain(tx.Hash(), sig.R, sig.S, sig.V)", "Sender() no longer recovers the signer from tx.Hash() and the transaction's own signature")
+	}
+	// every value Sender() can return is: the address recovered from THIS transaction's hash and
+	// signature, the per-transaction memo of exactly that value, the multisig address, or the zero
+	// address on error. Anything else (a shared cache, a lookup keyed by less than the hash) lets a
+	// signature be re-attached to another body.
+	if sfn := c.Fn("(*coreV2/transaction.Transaction).Sender"); sfn != nil {
+		bad := ""
+		n := 0
+		for _, o := range core.ResultOrigins(sfn, 0) {
+			n++
+			p := core.Path(o)
+			switch {
+			case isRecovered(o):
+				if ex, ok := o.(*ssa.Extract); ok {
+					call := ex.Tuple.(*ssa.Call)
+					if core.Path(call.Call.Args[0]) != "tx.Hash()" {
+						bad = "recovered from something other than tx.Hash(): " + core.Path(call.Call.Args[0])
+					}
+				}
+			case p == "tx.sender" || p == "*tx.sender":
+			case p == "tx.multisig.Multisig":
+			case isZeroAddress(o):
+			default:
+				if k, isK := o.(*ssa.Const); isK && k.Value == nil {
+					continue
+				}
+				bad = "origin " + p + " (" + o.String() + ")"
+			}
+		}
+		c.Check(bad == "" && n > 0, rule, "Transaction.Sender/origins", sfn.Pos(), "Sender() returns only: RecoverPlain(tx.Hash(), own signature), its per-transaction memo, the multisig address, or the zero address", "Sender() can return a value from another source — "+bad+": the sender would no longer be bound to this transaction's hash")
+		// the memo field is written only by Sender() itself, with the recovered value
+		txT := c.Named(core.PkgTx, "Transaction")
+		okW := true
+		nw := 0
+		for _, w := range c.FieldWrites(txT, "sender") {
+			nw++
+			if core.ShortFn(w.Fn) != "(*coreV2/transaction.Transaction).Sender" {
+				okW = false
+				continue
+			}
+			st, isStore := w.Instr.(*ssa.Store)
+			if !isStore {
+				okW = false
+				continue
+			}
+			al, isAl := core.Unwrap(st.Val).(*ssa.Alloc)
+			if !isAl {
+				okW = false
+				continue
+			}
+			rec := false
+			for _, r := range *al.Referrers() {
+				if s2, ok := r.(*ssa.Store); ok && s2.Addr == al && isRecovered(s2.Val) {
+					rec = true
+				}
+			}
+			if !rec {
+				okW = false
+			}
+		}
+		c.Check(okW && nw > 0, rule, "Transaction.sender/memo-writers", sfn.Pos(), "the per-transaction sender memo is written only by Sender() with the recovered address", "the sender memo is written elsewhere or with a value that was not recovered from the signature")
 	}
 	// tx.Hash covers every signed field
 	if hfn := c.MustFn(rule, "(*coreV2/transaction.Transaction).Hash"); hfn != nil {
